@@ -42,7 +42,7 @@ for d in sorted(glob.glob('/verif/seeded/*/')):
         'confirmed_by_me': [
             'in the author\'s scratch worktree: go build ./... succeeds with the change; the demonstration fails with the change and passes with patch.diff reverse-applied (one run each way by me, 10 each way by the author)',
             'git -C /repo apply --check patch.diff on the current HEAD of /repo (all fix: commits included)',
-            'git -C /repo apply patch.diff; ./check %s --tier quick --nomin; git -C /repo checkout -- .   (scripts/seed_matrix.sh)' % prop,
+            'scratch worktree of /repo HEAD + patch.diff, VERIF_REPO=<worktree> ./check %s --tier quick --nomin (scripts/seed_matrix.sh; result in check_result)' % prop,
         ],
         'check_result': r,
         'notes': NOTES.get(sid, ''),
